@@ -1140,3 +1140,19 @@ mod tests {
         assert!(err.message().contains("insufficient data"));
     }
 }
+
+#[cfg(feature = "verif-hooks")]
+impl ThetaSketch {
+    /// Verification hook: offer a chosen 63-bit hash value exactly as `update` does after
+    /// hashing (screen against theta, then insert).
+    pub fn verif_insert_hash(&mut self, hash: u64) {
+        if hash != 0 && hash < self.table.theta() {
+            self.table.try_insert(hash);
+        }
+    }
+
+    /// Verification hook: (lg_cur_size, raw slots of the open-addressed table).
+    pub fn verif_table(&self) -> (u8, Vec<u64>) {
+        self.table.verif_table()
+    }
+}
